@@ -359,7 +359,7 @@ func c10CompareText(m *vegeta.Metrics, ref c10Ref, rs []c10Res) error {
 	return nil
 }
 
-func runC10(c c10Case) error {
+func runC10(c c10Case) (err error) {
 	ref := c10Reference(c.Results)
 	// order A: as generated, closed once
 	var a vegeta.Metrics
@@ -370,6 +370,22 @@ func runC10(c c10Case) error {
 	if err := c10Compare(&a, ref, "added in generated order, closed once"); err != nil {
 		return err
 	}
+	// reports are values of their own: another report built meanwhile, with error texts of its own, changes nothing in this one
+	var other vegeta.Metrics
+	otherRes := []c10Res{{TS: 5, Latency: 7, Code: 500, Err: "another report: error 0"}, {TS: 6, Latency: 7, Code: 0, Err: "another report: error 1"}, {TS: 7, Latency: 9, Code: 502, Err: "another report: error 2"}}
+	for _, r := range otherRes {
+		other.Add(r.result())
+	}
+	other.Close()
+	a.Close()
+	if err := c10Compare(&a, ref, "added in generated order, closed once, read again after another report was built"); err != nil {
+		return err
+	}
+	defer func() {
+		if err == nil {
+			err = c10Compare(&other, c10Reference(otherRes), "another report of three failed results, read again after this one was built")
+		}
+	}()
 	// order B: drawn permutation with intermediate Close calls (periodic reporting)
 	closes := map[int]int{}
 	for _, p := range c.Closes {
